@@ -69,3 +69,25 @@ Section Round.
   Fixpoint rounds (n : nat) (rc : list N) : list N :=
     match n with O => rc | S k => rounds k (round rc) end.
 End Round.
+
+(* A requester whose chain `rc` may have FORKED from the server's active chain: the first request carries the locator of
+   rc; every inventory reply is followed at once by a request whose only start hash is the LAST id of that reply
+   (remote_peer.py handle_inventory_message_received: GetBlocksMessage([message.items[-1].hash])), until an empty
+   reply arrives.  The result is the list of ids the requester was told about (and then fetches). *)
+Section CatchUp.
+  Variable batch : N.
+  Variable main : list N.
+  Variable height_of : N -> option N.
+  Fixpoint follow (fuel : nat) (prev_reply : list N) (acc : list N) : list N :=
+    match fuel with
+    | O => acc
+    | S k =>
+        match rev prev_reply with
+        | [] => acc
+        | x :: _ => let r := serve batch main height_of [x] in
+                    match r with [] => acc | _ => follow k r (acc ++ r) end
+        end
+    end.
+  Definition catch_up (fuel : nat) (rc : list N) : list N :=
+    let r := serve batch main height_of (locator_ids rc) in follow fuel r r.
+End CatchUp.
